@@ -259,3 +259,312 @@ Qed.
    extension of the far edge (2,2)-(0,2) *)
 Lemma pip_L_far_edge : point_in_polygon false poly_L (3, 2) = true /\ pip_ref poly_L (3, 2) = Some true.
 Proof. split; vm_compute; reflexivity. Qed.
+
+(* ------------------------------------------------------------------ point_in_polygon:
+   every point strictly to the left of all edges is reported inside *)
+Definition Hp (v : v2) : Prop := 0 < fst v \/ (fst v == 0 /\ 0 < snd v).
+Definition Hn (v : v2) : Prop := fst v < 0 \/ (fst v == 0 /\ snd v < 0).
+
+Lemma qsgn_pos : forall x, qsgn x = 1%Z <-> 0 < x.
+Proof.
+  intro x. unfold qsgn. destruct (qltb 0 x) eqn:E1.
+  - apply qltb_true in E1. tauto.
+  - apply qltb_false in E1. destruct (qltb x 0) eqn:E2; split; intro H; try discriminate; lra.
+Qed.
+
+Lemma qsgn_neg : forall x, qsgn x = (-1)%Z <-> x < 0.
+Proof.
+  intro x. unfold qsgn. destruct (qltb 0 x) eqn:E1.
+  - apply qltb_true in E1. split; intro H; [discriminate|lra].
+  - apply qltb_false in E1. destruct (qltb x 0) eqn:E2.
+    + apply qltb_true in E2. tauto.
+    + apply qltb_false in E2. split; intro H; [discriminate|lra].
+Qed.
+
+Lemma qsgn_zero : forall x, qsgn x = 0%Z <-> x == 0.
+Proof.
+  intro x. unfold qsgn. destruct (qltb 0 x) eqn:E1.
+  - apply qltb_true in E1. split; intro H; [discriminate|lra].
+  - apply qltb_false in E1. destruct (qltb x 0) eqn:E2.
+    + apply qltb_true in E2. split; intro H; [discriminate|lra].
+    + apply qltb_false in E2. split; intro H; [lra|reflexivity].
+Qed.
+
+Lemma qsgn_cases : forall x, qsgn x = 1%Z \/ qsgn x = (-1)%Z \/ qsgn x = 0%Z.
+Proof. intro x. unfold qsgn. destruct (qltb 0 x); destruct (qltb x 0); tauto. Qed.
+
+Lemma vertex_sgn_pos : forall v, vertex_sgn v = 1%Z <-> Hp v.
+Proof.
+  intro v. unfold vertex_sgn, Hp.
+  destruct (qsgn_cases (fst v)) as [E | [E | E]]; rewrite E; cbn [Z.eqb].
+  - apply qsgn_pos in E. split; intro; [left; exact E|reflexivity].
+  - apply qsgn_neg in E. split; intro H; [discriminate|]. destruct H as [H | [H _]]; lra.
+  - apply qsgn_zero in E. rewrite qsgn_pos. split; intro H.
+    + right. split; assumption.
+    + destruct H as [H | [_ H]]; [lra|exact H].
+Qed.
+
+Lemma vertex_sgn_neg : forall v, vertex_sgn v = (-1)%Z <-> Hn v.
+Proof.
+  intro v. unfold vertex_sgn, Hn.
+  destruct (qsgn_cases (fst v)) as [E | [E | E]]; rewrite E; cbn [Z.eqb].
+  - apply qsgn_pos in E. split; intro H; [discriminate|]. destruct H as [H | [H _]]; lra.
+  - apply qsgn_neg in E. split; intro; [left; exact E|reflexivity].
+  - apply qsgn_zero in E. rewrite qsgn_neg. split; intro H.
+    + right. split; assumption.
+    + destruct H as [H | [_ H]]; [lra|exact H].
+Qed.
+
+Lemma vertex_sgn_cases : forall v,
+  vertex_sgn v = 1%Z \/ vertex_sgn v = (-1)%Z \/ vertex_sgn v = 0%Z.
+Proof.
+  intro v. unfold vertex_sgn. destruct (qsgn_cases (fst v)) as [E | [E | E]]; rewrite E; cbn [Z.eqb];
+    auto using qsgn_cases.
+Qed.
+
+(* within a lexicographic half-plane "strictly counter-clockwise of" is transitive *)
+Lemma ccw_trans_pos : forall u v w,
+  Hp u -> Hp v -> Hp w -> 0 < edge_cross u v -> 0 < edge_cross v w -> 0 < edge_cross u w.
+Proof.
+  intros [ux uy] [vx vy] [wx wy]. unfold Hp, edge_cross. cbn [fst snd].
+  intros Hu Hv Hw C1 C2.
+  assert (I : (ux * wy - uy * wx) * vx == (ux * vy - uy * vx) * wx + (vx * wy - vy * wx) * ux) by ring.
+  destruct Hv as [Hv | [Hv0 Hv]].
+  - destruct Hu as [Hu | [Hu0 Hu]]; destruct Hw as [Hw | [Hw0 Hw]]; nra.
+  - destruct Hu as [Hu | [Hu0 Hu]]; destruct Hw as [Hw | [Hw0 Hw]]; nra.
+Qed.
+
+Lemma ccw_trans_neg : forall u v w,
+  Hn u -> Hn v -> Hn w -> 0 < edge_cross u v -> 0 < edge_cross v w -> 0 < edge_cross u w.
+Proof.
+  intros [ux uy] [vx vy] [wx wy]. unfold Hn, edge_cross. cbn [fst snd].
+  intros Hu Hv Hw C1 C2.
+  assert (I : (ux * wy - uy * wx) * vx == (ux * vy - uy * vx) * wx + (vx * wy - vy * wx) * ux) by ring.
+  destruct Hv as [Hv | [Hv0 Hv]].
+  - destruct Hu as [Hu | [Hu0 Hu]]; destruct Hw as [Hw | [Hw0 Hw]]; nra.
+  - destruct Hu as [Hu | [Hu0 Hu]]; destruct Hw as [Hw | [Hw0 Hw]]; nra.
+Qed.
+
+(* the pairs (v_i, v_{i+1}) the code looks at: combine rel (roll rel) *)
+Fixpoint path_ok (P : v2 -> v2 -> Prop) (u : v2) (r : list v2) (first : v2) : Prop :=
+  match r with
+  | [] => P u first
+  | v :: r' => P u v /\ path_ok P v r' first
+  end.
+
+Lemma path_of_pairs : forall (P : v2 -> v2 -> Prop) r u first,
+  (forall v w, In (v, w) (combine (u :: r) (r ++ [first])) -> P v w) -> path_ok P u r first.
+Proof.
+  intros P r. induction r as [|v r IH]; intros u first H.
+  - cbn. apply H. cbn. left. reflexivity.
+  - cbn [path_ok]. split.
+    + apply H. cbn. left. reflexivity.
+    + apply IH. intros a b Hin. apply H. cbn [app combine]. right. exact Hin.
+Qed.
+
+Lemma no_turn_pos : forall r u first,
+  Hp u ->
+  path_ok (fun v w => 0 < edge_cross v w) u r first ->
+  path_ok (fun v w => vertex_sgn w = vertex_sgn v) u r first ->
+  Hp first /\ 0 < edge_cross u first.
+Proof.
+  intro r. induction r as [|v r IH]; intros u first Hu P1 P2; cbn [path_ok] in *.
+  - split; [|exact P1]. apply vertex_sgn_pos. rewrite P2. apply vertex_sgn_pos. exact Hu.
+  - destruct P1 as [C1 P1]. destruct P2 as [S1 P2].
+    assert (Hv : Hp v) by (apply vertex_sgn_pos; rewrite S1; apply vertex_sgn_pos; exact Hu).
+    destruct (IH v first Hv P1 P2) as [Hf C2].
+    split; [exact Hf|]. exact (ccw_trans_pos u v first Hu Hv Hf C1 C2).
+Qed.
+
+Lemma no_turn_neg : forall r u first,
+  Hn u ->
+  path_ok (fun v w => 0 < edge_cross v w) u r first ->
+  path_ok (fun v w => vertex_sgn w = vertex_sgn v) u r first ->
+  Hn first /\ 0 < edge_cross u first.
+Proof.
+  intro r. induction r as [|v r IH]; intros u first Hu P1 P2; cbn [path_ok] in *.
+  - split; [|exact P1]. apply vertex_sgn_neg. rewrite P2. apply vertex_sgn_neg. exact Hu.
+  - destruct P1 as [C1 P1]. destruct P2 as [S1 P2].
+    assert (Hv : Hn v) by (apply vertex_sgn_neg; rewrite S1; apply vertex_sgn_neg; exact Hu).
+    destruct (IH v first Hv P1 P2) as [Hf C2].
+    split; [exact Hf|]. exact (ccw_trans_neg u v first Hu Hv Hf C1 C2).
+Qed.
+
+Lemma edge_cross_self : forall u, edge_cross u u == 0.
+Proof. intros [x y]. unfold edge_cross. cbn. ring. Qed.
+
+(* wind2 / on_active_edge as folds over the pair list *)
+Definition contrib (vw : v2 * v2) : Z :=
+  if Z.eqb (vertex_sgn (snd vw) - vertex_sgn (fst vw)) 0 then 0%Z
+  else qsgn (edge_cross (fst vw) (snd vw)).
+
+Lemma wind2_pairs : forall vs ws,
+  wind2 vs ws = fold_right (fun vw acc => (contrib vw + acc)%Z) 0%Z (combine vs ws).
+Proof.
+  induction vs as [|v vs IH]; intros [|w ws]; cbn [wind2 combine fold_right]; try reflexivity.
+  rewrite IH. reflexivity.
+Qed.
+
+Lemma active_pairs : forall vs ws,
+  on_active_edge vs ws
+  = existsb (fun vw => Z.eqb (qsgn (edge_cross (fst vw) (snd vw))) 0
+                       && negb (Z.eqb (vertex_sgn (snd vw) - vertex_sgn (fst vw)) 0))
+            (combine vs ws).
+Proof.
+  induction vs as [|v vs IH]; intros [|w ws]; cbn [on_active_edge combine existsb]; try reflexivity.
+  rewrite IH. reflexivity.
+Qed.
+
+Lemma sum_nonneg_zero : forall (l : list (v2 * v2)),
+  (forall x, In x l -> (0 <= contrib x)%Z) ->
+  fold_right (fun vw acc => (contrib vw + acc)%Z) 0%Z l = 0%Z ->
+  forall x, In x l -> contrib x = 0%Z.
+Proof.
+  induction l as [|a l IH]; intros Hnn Hs x Hin; [contradiction|].
+  cbn [fold_right] in Hs.
+  assert (Ha := Hnn a (or_introl eq_refl)).
+  assert (Hrest : (0 <= fold_right (fun vw acc => (contrib vw + acc)%Z) 0%Z l)%Z).
+  { clear - Hnn. induction l as [|b l IH]; cbn [fold_right]; [lia|].
+    assert (0 <= contrib b)%Z by (apply Hnn; right; left; reflexivity).
+    assert (0 <= fold_right (fun vw acc => (contrib vw + acc)%Z) 0%Z l)%Z.
+    { apply IH. intros y Hy. apply Hnn. destruct Hy as [-> | Hy]; [left; reflexivity|right; right; exact Hy]. }
+    lia. }
+  destruct Hin as [<- | Hin]; [lia|].
+  apply IH; [intros y Hy; apply Hnn; right; exact Hy|lia|exact Hin].
+Qed.
+
+Lemma pip_all_left_rel : forall u r,
+  (forall v w, In (v, w) (combine (u :: r) (r ++ [u])) -> 0 < edge_cross v w) ->
+  existsb is_zero2 (u :: r) = false /\
+  existsb is_zero2 (r ++ [u]) = false /\
+  on_active_edge (u :: r) (r ++ [u]) = false /\
+  wind2 (u :: r) (r ++ [u]) <> 0%Z.
+Proof.
+  intros u r H.
+  assert (NZ : forall v, In v (u :: r) -> is_zero2 v = false).
+  { intros v Hin.
+    assert (Hex : exists w, In (v, w) (combine (u :: r) (r ++ [u]))).
+    { assert (HL : length (u :: r) = length (r ++ [u])) by (rewrite app_length; cbn; lia).
+      clear H. revert HL Hin. generalize (r ++ [u]) as ws. generalize (u :: r) as vs.
+      induction vs as [|a vs IH]; intros [|b ws] HL Hin; cbn in *; try contradiction; try lia.
+      destruct Hin as [-> | Hin]; [exists b; left; reflexivity|].
+      destruct (IH ws ltac:(lia) Hin) as [w Hw]. exists w. right. exact Hw. }
+    destruct Hex as [w Hw]. specialize (H v w Hw).
+    unfold is_zero2. destruct (Qeq_bool (fst v) 0) eqn:E1; [|reflexivity].
+    destruct (Qeq_bool (snd v) 0) eqn:E2; [|reflexivity].
+    apply Qeq_bool_iff in E1, E2. unfold edge_cross in H. rewrite E1, E2 in H. lra. }
+  split; [|split; [|split]].
+  - destruct (existsb is_zero2 (u :: r)) eqn:E; [|reflexivity].
+    apply existsb_exists in E. destruct E as [v [Hin Hz]]. rewrite (NZ v Hin) in Hz. discriminate.
+  - destruct (existsb is_zero2 (r ++ [u])) eqn:E; [|reflexivity].
+    apply existsb_exists in E. destruct E as [v [Hin Hz]].
+    assert (Hin' : In v (u :: r)).
+    { apply in_app_or in Hin. destruct Hin as [Hin | [<- | []]]; [right; exact Hin|left; reflexivity]. }
+    rewrite (NZ v Hin') in Hz. discriminate.
+  - rewrite active_pairs.
+    destruct (existsb _ (combine (u :: r) (r ++ [u]))) eqn:E; [|reflexivity].
+    apply existsb_exists in E. destruct E as [[v w] [Hin Hz]]. cbn [fst snd] in Hz.
+    specialize (H v w Hin). apply qsgn_pos in H. rewrite H in Hz. cbn in Hz. discriminate.
+  - rewrite wind2_pairs. intro Hs.
+    assert (Hc : forall x, In x (combine (u :: r) (r ++ [u])) -> contrib x = 0%Z).
+    { apply sum_nonneg_zero; [|exact Hs].
+      intros [v w] Hin. unfold contrib. cbn [fst snd].
+      destruct (Z.eqb (vertex_sgn w - vertex_sgn v) 0); [lia|].
+      specialize (H v w Hin). apply qsgn_pos in H. rewrite H. lia. }
+    assert (P1 := path_of_pairs (fun v w => 0 < edge_cross v w) r u u H).
+    assert (P2 : path_ok (fun v w => vertex_sgn w = vertex_sgn v) u r u).
+    { apply path_of_pairs. intros v w Hin. specialize (Hc (v, w) Hin). unfold contrib in Hc.
+      cbn [fst snd] in Hc.
+      destruct (Z.eqb (vertex_sgn w - vertex_sgn v) 0) eqn:E; [apply Z.eqb_eq in E; lia|].
+      specialize (H v w Hin). apply qsgn_pos in H. rewrite H in Hc. discriminate. }
+    pose proof (edge_cross_self u) as Z0.
+    destruct (vertex_sgn_cases u) as [S | [S | S]].
+    + apply vertex_sgn_pos in S. destruct (no_turn_pos r u u S P1 P2) as [_ C]. lra.
+    + apply vertex_sgn_neg in S. destruct (no_turn_neg r u u S P1 P2) as [_ C]. lra.
+    + (* u would be the zero vector *)
+      assert (Hu : is_zero2 u = false) by (apply NZ; left; reflexivity).
+      unfold vertex_sgn in S. unfold is_zero2 in Hu.
+      destruct (Z.eqb (qsgn (fst u)) 0) eqn:E.
+      * apply Z.eqb_eq in E. apply qsgn_zero in E, S. apply Qeq_bool_iff in E, S.
+        rewrite E, S in Hu. discriminate.
+      * apply Z.eqb_neq in E. contradiction.
+Qed.
+
+Lemma pip_decide : forall default (vs ws : list v2),
+  existsb is_zero2 vs = false -> existsb is_zero2 ws = false ->
+  on_active_edge vs ws = false -> wind2 vs ws <> 0%Z ->
+  (if existsb is_zero2 vs || existsb is_zero2 ws then default
+   else if on_active_edge vs ws then default else negb (wind2 vs ws =? 0)%Z) = true.
+Proof.
+  intros default vs ws Z1 Z2 A W. rewrite Z1, Z2, A. cbn [orb].
+  apply negb_true_iff. apply Z.eqb_neq. exact W.
+Qed.
+
+(* every point strictly to the left of all (cyclically consecutive) edges — i.e. every
+   point strictly inside a convex counter-clockwise polygon — is reported inside *)
+Lemma pip_all_left : forall default poly p,
+  poly <> [] ->
+  (forall a b, In (a, b) (combine poly (roll1 poly)) -> 0 < cross3 a b p) ->
+  point_in_polygon default poly p = true.
+Proof.
+  intros default poly p Hne H. unfold point_in_polygon. cbv zeta.
+  set (f := fun v : Q * Q => (fst v - fst p, snd v - snd p)).
+  destruct poly as [|a0 r0]; [contradiction|].
+  assert (Hroll : roll1 (map f (a0 :: r0)) = map f r0 ++ [f a0]) by reflexivity.
+  rewrite Hroll. cbn [map].
+  assert (H' : forall v w, In (v, w) (combine (f a0 :: map f r0) (map f r0 ++ [f a0])) ->
+                           0 < edge_cross v w).
+  { intros v w Hin.
+    assert (E : combine (f a0 :: map f r0) (map f r0 ++ [f a0])
+                = map (fun ab => (f (fst ab), f (snd ab))) (combine (a0 :: r0) (r0 ++ [a0]))).
+    { change (f a0 :: map f r0) with (map f (a0 :: r0)).
+      replace (map f r0 ++ [f a0]) with (map f (r0 ++ [a0])) by (rewrite map_app; reflexivity).
+      generalize (a0 :: r0) as xs. generalize (r0 ++ [a0]) as ys.
+      intros ys xs. revert ys. induction xs as [|x xs IH]; intros [|y ys]; cbn; try reflexivity.
+      rewrite IH. reflexivity. }
+    rewrite E in Hin. apply in_map_iff in Hin. destruct Hin as [[a b] [Eab Hin]].
+    cbn [fst snd] in Eab. injection Eab as <- <-.
+    specialize (H a b Hin). unfold cross3 in H. unfold edge_cross, f. cbn [fst snd]. lra. }
+  destruct (pip_all_left_rel (f a0) (map f r0) H') as (Z1 & Z2 & A & W).
+  apply pip_decide; assumption.
+Qed.
+
+(* ------------------------------------------------------------------ sort_point_pairs:
+   the link that one pass of the inner loop appends *)
+Lemma scan_spec : forall lines found prev j0 j l np,
+  scan lines found prev j0 = Some (j, l, np) ->
+  exists k a b,
+    j = (j0 + k)%nat /\ nth_error lines k = Some (a, b) /\ nth_error found k = Some false /\
+    (l = (a, b) \/ l = (b, a)) /\ fst l = prev /\ np = snd l.
+Proof.
+  induction lines as [|[a b] lr IH]; intros found prev j0 j l np H; cbn [scan] in H;
+    [discriminate|].
+  destruct found as [|f fr]; [discriminate|].
+  destruct (negb f && Z.eqb a prev) eqn:E1.
+  - injection H as <- <- <-. apply andb_prop in E1. destruct E1 as [Ef Ea].
+    apply negb_true_iff in Ef. apply Z.eqb_eq in Ea. subst f.
+    exists 0%nat, a, b. cbn. repeat split; auto; lia.
+  - destruct (negb f && Z.eqb b prev) eqn:E2.
+    + injection H as <- <- <-. apply andb_prop in E2. destruct E2 as [Ef Eb].
+      apply negb_true_iff in Ef. apply Z.eqb_eq in Eb. subst f.
+      exists 0%nat, a, b. cbn. repeat split; auto; lia.
+    + destruct (IH fr prev (S j0) j l np H) as (k & a' & b' & Hj & Hl & Hf & Hor & Hp & Hn).
+      exists (S k), a', b'. cbn. repeat split; auto; lia.
+Qed.
+
+(* when the scan finds nothing, no unused pair touches prev *)
+Lemma scan_none : forall lines found prev j0 k a b,
+  scan lines found prev j0 = None ->
+  nth_error lines k = Some (a, b) -> nth_error found k = Some false ->
+  a <> prev /\ b <> prev.
+Proof.
+  induction lines as [|[a0 b0] lr IH]; intros found prev j0 k a b H Hl Hf.
+  - destruct k; discriminate.
+  - destruct found as [|f fr]; [destruct k; discriminate|]. cbn [scan] in H.
+    destruct (negb f && Z.eqb a0 prev) eqn:E1; [discriminate|].
+    destruct (negb f && Z.eqb b0 prev) eqn:E2; [discriminate|].
+    destruct k as [|k].
+    + cbn in Hl, Hf. injection Hl as -> ->. injection Hf as ->. cbn in E1, E2.
+      apply Z.eqb_neq in E1, E2. split; assumption.
+    + cbn in Hl, Hf. exact (IH fr prev (S j0) k a b H Hl Hf).
+Qed.
